@@ -47,8 +47,23 @@
 //  O11  a user `Dsigns` shorter than n is read through `get_unchecked` in `permute(&mut Dsigns, &ds, &perm)`: out-of-bounds read in unsafe code
 //       reachable from the safe public API `QDLDLFactorisation::new` (the debug_assert in `permute` tests x.len(), not b.len()).
 //  O12  `_factor`'s contract (unit qdldl_factor) says nothing about L for n == 0, so l_complete is claimed for n > 0 only.
-// DROPPED: the debug_assert! of permute (as in qdldl_kernels).  NOT under contract here: _lsolve_safe / _ltsolve_safe (dead code: only the
-//  unchecked versions are called by _solve), get_amd_ordering's body.
+// DROPPED: the debug_assert! of permute (as in qdldl_kernels).  NOT under contract here: get_amd_ordering's body; _lsolve_safe / _ltsolve_safe are
+//  in unit qdldl_safe (F-real).
+// Also proved: lemma_solve_pre -- fact_ok + l_complete (what `new` / `refactor` deliver on Ok) give the precondition of `QDLDLFactorisation::solve`
+//  exactly as unit qdldl_kernels states it, and the hypotheses of its functional clause.  The bounds-checked solves are in unit qdldl_safe.
+// New rewrite rules (tools/extract.py, additive): tupcall (`(a, b, _) = f(..);` -> `{ let (t0, t1, _) = f(..); a = t0; b = t1; }`, the desugaring of
+//  destructuring assignment in the Rust reference), R30i (`X.iter().sum()` -> summation loop at type usize, overflow check kept as an obligation).
+// MEASURED (verus --rlimit 50 = 150 M units): 50 obligations, 5 s; heaviest _qdldl_new 1.1 M (0.7 %), permute 0.43 M, _invperm 0.28 M; seeds 1..6 stable.
+// MUTATION ROUND (scratch copy, one wrong edit at a time, 27 edits): 26 fail a named obligation -- L allocated with sum-1 (underflow + _factor
+//  precondition) / with Ain.nnz() (precondition); perm not validated (clone) and _invperm's error swallowed (psym precondition, bad_perm <==> Err);
+//  perm / iperm swapped in the struct, AMD's pair swapped, permute_symmetric(.., &perm) (is_sym_perm_of BY f.iperm / lemma_ordering_ok);
+//  `logical = false` always in _qdldl_new (Err ZeroPivot ==> !logical), is_symbolic: false; check_structure's verdict ignored; Dsigns permuted with iperm /
+//  not permuted / initialised -1; eps and delta swapped; D of length n+1, Dinv of length sumLnz, L as (n, n+1); sum over etree (loop invariant);
+//  zeroed AtoPAPt; refactor: Result ignored (`let _ =` + Ok(())), is_symbolic = true; accessors returning the wrong field; _invperm `<=` / duplicates
+//  accepted; permute reading b[0].
+//  SURVIVOR (1): refactor passing the literal `true` as `logical` to _factor (a symbolic refactorisation behind is_symbolic == false).  Nothing in
+//  _factor's contract (unit qdldl_factor) distinguishes a numeric from a logical run that returns Ok -- floats are uninterpreted and no clause such as
+//  `!logical && Ok ==> Dinv[k] == f_recip(D[k])` is stated there.  Open item for unit qdldl_factor (provable in _factor_inner's column loop).
 use vstd::prelude::*;
 use vstd::set_lib::*;
 verus! {
@@ -647,6 +662,20 @@ pub open spec fn qf_built(f: QDLDLFactorisation<F>, Ain: CscMatrix<F>, o: Option
     &&& dsigns_of(o, f.perm@, f.workspace.Dsigns@)
     &&& f.workspace.regularize_enable == opt_reg_enable(o) && f.workspace.regularize_eps == opt_reg_eps(o) && f.workspace.regularize_delta == opt_reg_delta(o)
     &&& f.workspace.regularize_count <= n && f.workspace.positive_inertia <= n
+}
+// composition with unit qdldl_kernels: a successfully constructed / refactored object satisfies the precondition of `QDLDLFactorisation::solve`
+// as stated there (l_wf of the factor, lengths of Dinv / fwork / perm, perm in range), and the hypotheses of its functional clause
+// (l_strict, perm without repetitions) -- for n > 0 (O12)
+pub open spec fn distinct(p: Seq<usize>) -> bool { forall|i: int, j: int| 0 <= i < j < p.len() ==> p[i] != p[j] }
+pub proof fn lemma_solve_pre(f: QDLDLFactorisation<F>, blen: int)
+    requires fact_ok(f), f.workspace.triuA.n > 0, blen == f.D@.len(),
+        l_complete(f.workspace.triuA.n as int, f.L.colptr@, f.L.rowval@, f.L.nzval@),
+    ensures
+        l_wf(blen, f.L.colptr@, f.L.rowval@, f.L.nzval@), f.Dinv@.len() >= blen,
+        f.workspace.fwork@.len() == blen, f.perm@.len() == blen, in_range(f.perm@, blen),
+        l_strict(blen, f.L.colptr@, f.L.rowval@), distinct(f.perm@),
+{
+    reveal(l_complete); reveal(perms_inverse);
 }
 // the sizes fit the machine word and the optional vectors have the dimension of the matrix (see REQUIRES / OBSERVATIONS in the header)
 pub open spec fn new_pre(Ain: CscMatrix<F>, o: Option<QDLDLSettings<F>>) -> bool {
